@@ -41,7 +41,11 @@ def replay(info, ce):
         f = np.array([_num(v) for v in inp['f']], dtype=float)
         F = np.array([_num(v) for v in inp.get('F', [1.0] * len(f))])
         fc = np.array([_num(v) for v in inp['fc']], dtype=float) if targets == 'given' else None
-        cases.append((f, F, fc, _num(inp['band'])))
+        # only inputs inside the property's domain may witness a violation: positive ascending Fourier frequencies (a leading
+        # zero bin allowed), positive target frequencies
+        inside = np.all(np.diff(f) > 0) and np.all(f[1:] > 0) and f[0] >= 0 and (fc is None or np.all(fc > 0)) and (f[0] == 0) == bool(zero_bin)
+        if inside:
+            cases.append((f, F, fc, _num(inp['band'])))
     except Exception:
         pass
     rng = np.random.RandomState(8)
